@@ -5,274 +5,14 @@
 -/
 import KcacheModel.Actor
 import KcacheModel.Cache
+import KcacheModel.Proofs.Actor
+import KcacheModel.Lin
+import KcacheModel.Proofs.Lin
 namespace KC.C15
 open KC
 
 section
 variable {S Op Res : Type} (apply : S → Op → S × Res)
-
-theorem seqRun_append (s : S) (ops : List Op) (op : Op) :
-    seqRun apply s (ops ++ [op]) =
-      ((apply (seqRun apply s ops).1 op).1, (seqRun apply s ops).2 ++ [(apply (seqRun apply s ops).1 op).2]) := by
-  induction ops generalizing s with
-  | nil => simp [seqRun]
-  | cons o os ih => simp [seqRun, ih]
-
-structure AInv (s0 : S) (s : ASt S Op Res) : Prop where
-  /-- the processed requests, replayed one after the other on the initial state, give the current state and
-      exactly the recorded results -/
-  seq : seqRun apply s0 (s.lin.map (·.2.1)) = (s.st, s.lin.map (·.2.2))
-  /-- every result handed out (or waiting to be) is the one computed at the processing instant -/
-  computed_lin : ∀ i r, lookupId i s.computed = some r → ∃ op, (i, op, r) ∈ s.lin
-  returned_lin : ∀ i r, (i, r) ∈ s.returned → ∃ op, (i, op, r) ∈ s.lin
-  /-- ids are fresh -/
-  lin_called : ∀ i op r, (i, op, r) ∈ s.lin → i ∈ s.called
-  pending_called : ∀ i op, lookupId i s.pending = some op → i ∈ s.called
-  pending_not_lin : ∀ i op, lookupId i s.pending = some op → ∀ op' r, (i, op', r) ∉ s.lin
-  /-- real-time order: if `i` had returned when `j` was called, `i` is processed before `j` -/
-  rt : ∀ i j, (i, j) ∈ s.before → (∃ a, idxOf i s.lin = some a) ∧ ∀ a b, idxOf i s.lin = some a → idxOf j s.lin = some b → a < b
-  before_called : ∀ i j, (i, j) ∈ s.before → j ∈ s.called
-
-theorem lookupId_removeId_ne {α : Type} (i j : Nat) (l : List (Nat × α)) (h : i ≠ j) :
-    lookupId i (removeId j l) = lookupId i l := by
-  induction l with
-  | nil => rfl
-  | cons p rest ih =>
-    obtain ⟨k, a⟩ := p
-    by_cases hk : k = j
-    · subst hk
-      have : ¬ k = i := fun e => h e.symm
-      simp [removeId, lookupId, this, ih]
-    · by_cases hki : k = i
-      · subst hki; simp [removeId, lookupId, hk]
-      · simp [removeId, lookupId, hk, hki, ih]
-
-theorem lookupId_removeId_self {α : Type} (i : Nat) (l : List (Nat × α)) : lookupId i (removeId i l) = none := by
-  induction l with
-  | nil => rfl
-  | cons p rest ih =>
-    obtain ⟨k, a⟩ := p
-    by_cases hk : k = i <;> simp [removeId, lookupId, hk, ih]
-
-theorem lookupId_append {α : Type} (i : Nat) (l : List (Nat × α)) (j : Nat) (a : α) :
-    lookupId i (l ++ [(j, a)]) = (lookupId i l).orElse (fun _ => if j = i then some a else none) := by
-  induction l with
-  | nil => simp [lookupId]
-  | cons p rest ih =>
-    obtain ⟨k, c⟩ := p
-    by_cases hk : k = i <;> simp [lookupId, hk, ih]
-
-theorem idxOf_append_some (i : Nat) (l : List (Nat × Op × Res)) (x : Nat × Op × Res) (a : Nat)
-    (h : idxOf i l = some a) : idxOf i (l ++ [x]) = some a := by
-  induction l generalizing a with
-  | nil => simp [idxOf] at h
-  | cons p rest ih =>
-    obtain ⟨k, o, r⟩ := p
-    by_cases hk : k = i
-    · simp [idxOf, hk] at h ⊢; exact h
-    · simp only [idxOf, hk, ↓reduceIte, Option.map_eq_some_iff, List.cons_append] at h ⊢
-      obtain ⟨b, hb, hab⟩ := h
-      exact ⟨b, ih b hb, hab⟩
-
-theorem idxOf_lt_length (i : Nat) (l : List (Nat × Op × Res)) (a : Nat) (h : idxOf i l = some a) : a < l.length := by
-  induction l generalizing a with
-  | nil => simp [idxOf] at h
-  | cons p rest ih =>
-    obtain ⟨k, o, r⟩ := p
-    by_cases hk : k = i
-    · simp [idxOf, hk] at h; subst h; simp
-    · simp only [idxOf, hk, ↓reduceIte, Option.map_eq_some_iff] at h
-      obtain ⟨b, hb, hab⟩ := h
-      have := ih b hb
-      simp; omega
-
-theorem idxOf_append_new (i : Nat) (l : List (Nat × Op × Res)) (o : Op) (r : Res)
-    (h : idxOf i l = none) : idxOf i (l ++ [(i, o, r)]) = some l.length := by
-  induction l with
-  | nil => simp [idxOf]
-  | cons p rest ih =>
-    obtain ⟨k, o', r'⟩ := p
-    by_cases hk : k = i
-    · simp [idxOf, hk] at h
-    · simp only [idxOf, hk, ↓reduceIte, Option.map_eq_none_iff] at h
-      simp [idxOf, hk, ih h]
-
-theorem idxOf_append_other (b i : Nat) (l : List (Nat × Op × Res)) (o : Op) (r : Res) (h : idxOf b l = none)
-    (hbi : b ≠ i) : idxOf b (l ++ [(i, o, r)]) = none := by
-  induction l with
-  | nil => simp only [List.nil_append, idxOf]; have : ¬ i = b := fun e => hbi e.symm; simp [this]
-  | cons p rest ih =>
-    obtain ⟨k, o2, r2⟩ := p
-    by_cases hk : k = b
-    · simp [idxOf, hk] at h
-    · simp only [idxOf, hk, ↓reduceIte, Option.map_eq_none_iff] at h
-      simp [idxOf, hk, ih h]
-
-theorem idxOf_none_of_not_mem (i : Nat) (l : List (Nat × Op × Res)) (h : ∀ op r, (i, op, r) ∉ l) : idxOf i l = none := by
-  induction l with
-  | nil => rfl
-  | cons p rest ih =>
-    obtain ⟨k, o, r⟩ := p
-    by_cases hk : k = i
-    · subst hk; exact absurd List.mem_cons_self (h o r)
-    · simp only [idxOf, hk, ↓reduceIte, Option.map_eq_none_iff]
-      exact ih (fun op r hm => h op r (List.mem_cons_of_mem _ hm))
-
-theorem idxOf_some_of_mem (i : Nat) (l : List (Nat × Op × Res)) (op : Op) (r : Res) (h : (i, op, r) ∈ l) :
-    ∃ a, idxOf i l = some a := by
-  induction l with
-  | nil => cases h
-  | cons p rest ih =>
-    obtain ⟨k, o, r'⟩ := p
-    by_cases hk : k = i
-    · exact ⟨0, by simp [idxOf, hk]⟩
-    · rcases List.mem_cons.mp h with h' | h'
-      · cases h'; exact absurd rfl hk
-      · obtain ⟨a, ha⟩ := ih h'
-        exact ⟨a + 1, by simp [idxOf, hk, ha]⟩
-
-theorem ainv_init (s0 : S) : AInv apply s0 ({ st := s0 } : ASt S Op Res) := by
-  refine ⟨rfl, ?_, ?_, ?_, ?_, ?_, ?_, ?_⟩ <;> intros <;> simp_all [lookupId]
-
-theorem ainv_step (s0 : S) (s : ASt S Op Res) (e : AEv Op Res) (h : AInv apply s0 s) (hen : s.enabled e = true) :
-    AInv apply s0 (s.step apply e) := by
-  obtain ⟨hseq, hcl, hrl, hlc, hpc, hpnl, hrt, hbc⟩ := h
-  cases e with
-  | call i op =>
-    simp only [ASt.enabled, Bool.not_eq_true', List.contains_eq_mem, decide_eq_false_iff_not] at hen
-    simp only [ASt.step]
-    refine ⟨hseq, hcl, hrl, fun j o r hm => List.mem_cons_of_mem _ (hlc j o r hm), ?_, ?_, ?_, ?_⟩
-    · intro j o hj
-      rw [lookupId_append] at hj
-      cases hl : lookupId j s.pending with
-      | some o' => exact List.mem_cons_of_mem _ (hpc j o' hl)
-      | none =>
-        simp only [hl, Option.orElse_none] at hj
-        split at hj
-        · rename_i hij; subst hij; exact List.mem_cons_self
-        · cases hj
-    · intro j o hj o' r hm
-      rw [lookupId_append] at hj
-      cases hl : lookupId j s.pending with
-      | some o'' => exact hpnl j o'' hl o' r hm
-      | none =>
-        simp only [hl, Option.orElse_none] at hj
-        split at hj
-        · rename_i hij; subst hij; exact hen (hlc _ o' r hm)
-        · cases hj
-    · intro a b hab
-      rcases List.mem_append.mp hab with hab | hab
-      · exact hrt a b hab
-      · simp only [List.mem_map] at hab
-        obtain ⟨⟨a', r⟩, hm, heq⟩ := hab
-        simp only [Prod.mk.injEq] at heq
-        obtain ⟨rfl, rfl⟩ := heq
-        obtain ⟨o, hmo⟩ := hrl a' r hm
-        refine ⟨idxOf_some_of_mem a' s.lin o r hmo, ?_⟩
-        intro x y _ hy
-        -- `i` is fresh: it is not in `lin`
-        have : idxOf i s.lin = none := idxOf_none_of_not_mem i s.lin (fun o' r' hm' => hen (hlc i o' r' hm'))
-        rw [this] at hy; cases hy
-    · intro a b hab
-      rcases List.mem_append.mp hab with hab | hab
-      · exact List.mem_cons_of_mem _ (hbc a b hab)
-      · simp only [List.mem_map] at hab
-        obtain ⟨⟨a', r⟩, _, heq⟩ := hab
-        simp only [Prod.mk.injEq] at heq
-        obtain ⟨_, rfl⟩ := heq
-        exact List.mem_cons_self
-  | proc i =>
-    simp only [ASt.enabled] at hen
-    simp only [ASt.step]
-    cases hp : lookupId i s.pending with
-    | none => rw [hp] at hen; cases hen
-    | some op =>
-      simp only
-      have hnl := hpnl i op hp
-      have hidx : idxOf i s.lin = none := idxOf_none_of_not_mem i s.lin hnl
-      refine ⟨?_, ?_, ?_, ?_, ?_, ?_, ?_, hbc⟩
-      · simp only [List.map_append, List.map_cons, List.map_nil]
-        rw [seqRun_append, hseq]
-      · intro j r hj
-        rw [lookupId_append] at hj
-        cases hl : lookupId j s.computed with
-        | some r' =>
-          simp only [hl, Option.orElse_some, Option.some.injEq] at hj; subst hj
-          obtain ⟨o, hm⟩ := hcl j r' hl
-          exact ⟨o, List.mem_append_left _ hm⟩
-        | none =>
-          simp only [hl, Option.orElse_none] at hj
-          split at hj
-          · rename_i hij; subst hij; cases hj; exact ⟨op, by simp⟩
-          · cases hj
-      · intro j r hm
-        obtain ⟨o, hmo⟩ := hrl j r hm
-        exact ⟨o, List.mem_append_left _ hmo⟩
-      · intro j o r hm
-        rcases List.mem_append.mp hm with hm | hm
-        · exact hlc j o r hm
-        · simp only [List.mem_singleton, Prod.mk.injEq] at hm
-          obtain ⟨rfl, _, _⟩ := hm
-          exact hpc _ op hp
-      · intro j o hj
-        by_cases hji : j = i
-        · subst hji; rw [lookupId_removeId_self] at hj; cases hj
-        · rw [lookupId_removeId_ne j i s.pending hji] at hj; exact hpc j o hj
-      · intro j o hj o' r hm
-        by_cases hji : j = i
-        · subst hji; rw [lookupId_removeId_self] at hj; cases hj
-        · rw [lookupId_removeId_ne j i s.pending hji] at hj
-          rcases List.mem_append.mp hm with hm | hm
-          · exact hpnl j o hj o' r hm
-          · simp only [List.mem_singleton, Prod.mk.injEq] at hm
-            exact hji hm.1
-      · intro a b hab
-        obtain ⟨⟨x, hx⟩, hord⟩ := hrt a b hab
-        refine ⟨⟨x, idxOf_append_some a s.lin _ x hx⟩, ?_⟩
-        intro x' y' hx' hy'
-        rw [idxOf_append_some a s.lin _ x hx] at hx'
-        cases hx'
-        cases hb : idxOf b s.lin with
-        | some y =>
-          rw [idxOf_append_some b s.lin _ y hb] at hy'; cases hy'
-          exact hord _ _ hx hb
-        | none =>
-          -- `b` is the request being processed now: it goes to the end
-          by_cases hbi : b = i
-          · subst hbi
-            rw [idxOf_append_new b s.lin op _ hb] at hy'; cases hy'
-            exact idxOf_lt_length a s.lin _ hx
-          · rw [idxOf_append_other b i s.lin op _ hb hbi] at hy'; cases hy'
-  | ret i =>
-    simp only [ASt.enabled] at hen
-    simp only [ASt.step]
-    cases hp : lookupId i s.computed with
-    | none => rw [hp] at hen; cases hen
-    | some r =>
-      simp only
-      refine ⟨hseq, ?_, ?_, hlc, hpc, hpnl, hrt, hbc⟩
-      · intro j r' hj
-        by_cases hji : j = i
-        · subst hji; rw [lookupId_removeId_self] at hj; cases hj
-        · rw [lookupId_removeId_ne j i s.computed hji] at hj
-          exact hcl j r' hj
-      · intro j r' hm
-        rcases List.mem_append.mp hm with hm | hm
-        · exact hrl j r' hm
-        · simp only [List.mem_singleton, Prod.mk.injEq] at hm
-          obtain ⟨rfl, rfl⟩ := hm
-          exact hcl _ _ hp
-
-
-theorem ainv_run (s0 : S) (s : ASt S Op Res) (es : List (AEv Op Res)) (s' : ASt S Op Res)
-    (h : AInv apply s0 s) (hr : s.run apply es = some s') : AInv apply s0 s' := by
-  induction es generalizing s with
-  | nil => simp [ASt.run] at hr; subst hr; exact h
-  | cons e es ih =>
-    simp only [ASt.run] at hr
-    split at hr
-    · rename_i hen; exact ih _ (ainv_step apply s0 s e h hen) hr
-    · cases hr
 
 /-- **linearizable, with the processing instant as linearization point** — for every number of callers and
 every interleaving of calls, processing instants and returns:
@@ -339,6 +79,164 @@ end
 example : ∃ s, ({ st := (0 : Nat) } : ASt Nat Nat Nat).run (fun st op => (st + op, st + op))
     [.call 1 5, .proc 1, .ret 1, .call 2 0, .call 3 7, .proc 3, .proc 2, .ret 2] = some s ∧
     s.returned = [(1, 5), (2, 12)] ∧ s.before = [(1, 2), (1, 3)] := ⟨_, rfl, by decide, by decide⟩
+
+/-! ### the history checker of the lin engine decides linearizability
+
+The lin engine records histories of the real cache (one writer, many readers, stamps from one atomic counter)
+and `Lin.accepts` (KcacheModel/Lin.lean, the function the driver runs) judges them. It is sound and complete:
+it accepts exactly the well-formed histories that have a linearization. -/
+section
+open KC.Lin
+
+/-- **soundness of acceptance**: if the checker accepts a history of a sequential writer and any readers, the
+ranking `rankW / rankR` is a linearization of it -/
+theorem lin_accepts_sound (ws : List WriteOp) (n : Nat) (rs : List ReadOp)
+    (hw : writesSequential ws n = true) (h : accepts ws n rs = true) :
+    IsLinearization ws n rs rankW rankR := by
+  unfold accepts at h
+  simp only [Bool.and_eq_true, Option.isNone_iff_eq_none] at h
+  obtain ⟨⟨he, hl⟩, hi⟩ := h
+  have early : ∀ r ∈ rs, r.k ≤ n ∧ wcall ws r.k < r.ret ∧ r.call < r.ret := by
+    intro r hr
+    have := List.find?_eq_none.mp he r hr
+    simp at this
+    omega
+  have late : ∀ r ∈ rs, r.k < n → r.call < wret ws (r.k + 1) := by
+    intro r hr hk
+    have := List.find?_eq_none.mp hl r hr
+    simp at this
+    exact this hk
+  refine ⟨?_, ?_, ?_, ?_, ?_⟩
+  · -- a write that returned before the read was invoked is not newer than what the read returned
+    intro r hr k h1 hk hlt
+    unfold Rank.lt rankW rankR
+    simp only
+    by_cases hle : k ≤ r.k
+    · by_cases heq : k = r.k
+      · right; exact ⟨heq, Or.inl (by omega)⟩
+      · left; omega
+    · exfalso
+      have hrk : r.k < n := by omega
+      have h2 := late r hr hrk
+      by_cases heq : k = r.k + 1
+      · subst heq; omega
+      · have := wret_lt_wcall ws n hw (r.k + 1) k (by omega) hk
+        have := wcall_lt_wret ws n hw k h1 hk
+        omega
+  · -- a write invoked after the read returned is newer than what the read returned
+    intro r hr k h1 hk hlt
+    unfold Rank.lt rankW rankR
+    simp only
+    left
+    obtain ⟨hrn, hc, _⟩ := early r hr
+    by_cases hle : k ≤ r.k
+    · exfalso
+      by_cases heq : k = r.k
+      · subst heq; omega
+      · have := wret_lt_wcall ws n hw k r.k (by omega) hrn
+        have := wcall_lt_wret ws n hw k h1 hk
+        omega
+    · omega
+  · -- no new-old inversion between reads
+    intro r1 h1 r2 h2 hlt
+    unfold Rank.lt rankR
+    simp only
+    obtain ⟨hn1, _, hc1⟩ := early r1 h1
+    obtain ⟨_, _, hc2⟩ := early r2 h2
+    by_cases hk : r1.k < r2.k
+    · left; exact hk
+    · by_cases heq : r1.k = r2.k
+      · right; exact ⟨heq, Or.inr ⟨trivial, by omega⟩⟩
+      · exfalso
+        have := no_inversion rs n hi r1 r2 h1 h2 (by omega) hn1
+        omega
+  · intro j k _ hjk _
+    left; exact hjk
+  · intro r hr
+    refine ⟨(early r hr).1, ?_⟩
+    intro j _ _
+    unfold Rank.lt rankW rankR
+    simp only
+    constructor
+    · rintro (h | ⟨h, _⟩) <;> omega
+    · intro hle
+      by_cases heq : j = r.k
+      · right; exact ⟨heq, Or.inl (by omega)⟩
+      · left; omega
+
+/-- **soundness of rejection** (the checker raises no false alarm): a well-formed history that has *any*
+linearization — whatever rankings `wk`, `rk` one proposes — is accepted -/
+theorem lin_rejects_sound (ws : List WriteOp) (n : Nat) (rs : List ReadOp) (wk : Nat → Rank) (rk : ReadOp → Rank)
+    (hwf : WellFormed ws n rs) (hlin : IsLinearization ws n rs wk rk) : accepts ws n rs = true := by
+  unfold accepts
+  simp only [Bool.and_eq_true, Option.isNone_iff_eq_none]
+  refine ⟨⟨?_, ?_⟩, ?_⟩
+  · -- no read of a state not yet written
+    apply List.find?_eq_none.mpr
+    intro r hr
+    have hl := hlin.legal r hr
+    have hp := hwf.read_pos r hr
+    simp only [Bool.or_eq_true, decide_eq_true_eq, Bool.not_eq_eq_eq_not, Bool.not_true, decide_eq_false_iff_not, not_or, Nat.not_lt]
+    refine ⟨⟨hl.1, ?_⟩, by omega⟩
+    by_cases hk : r.k = 0
+    · simp [wcall, hk]; omega
+    · have h1 : 1 ≤ r.k := by omega
+      rcases Nat.lt_or_ge (wcall ws r.k) r.ret with h | h
+      · omega
+      · exfalso
+        have hne := (hwf.rw_distinct r hr r.k h1 hl.1).1
+        have := hlin.read_write r hr r.k h1 hl.1 (by omega)
+        exact Rank.lt_asymm _ _ this ((hl.2 r.k h1 hl.1).mpr (Nat.le_refl _))
+  · -- no read of an overwritten state
+    apply List.find?_eq_none.mpr
+    intro r hr
+    simp only [Bool.and_eq_true, decide_eq_true_eq, Bool.not_eq_eq_eq_not, Bool.not_true, decide_eq_false_iff_not, not_and, Nat.not_lt]
+    intro hk
+    rcases Nat.lt_or_ge r.call (wret ws (r.k + 1)) with h | h
+    · omega
+    · exfalso
+      have hne := (hwf.rw_distinct r hr (r.k + 1) (by omega) (by omega)).2
+      have := hlin.write_read r hr (r.k + 1) (by omega) (by omega) (by omega)
+      have := ((hlin.legal r hr).2 (r.k + 1) (by omega) (by omega)).mp this
+      omega
+  · -- no new-old inversion
+    apply List.find?_eq_none.mpr
+    intro k hk
+    have hkn : k < n + 2 := List.mem_range.mp hk
+    simp only [Bool.and_eq_true, decide_eq_true_eq, not_and]
+    intro hk1
+    cases hm : minRetFrom rs k with
+    | none => simp
+    | some m =>
+      simp only [Bool.not_eq_eq_eq_not, Bool.not_true, decide_eq_false_iff_not, Nat.not_lt]
+      unfold minRetFrom at hm
+      obtain ⟨r1, hr1, he1⟩ := minRet_attained _ m hm
+      have hr1' := List.mem_filter.mp hr1
+      have hk1' : r1.k ≥ k := by simpa using hr1'.2
+      have hp1 := hwf.read_pos r1 hr1'.1
+      rcases Nat.lt_or_ge (maxCallBelow rs k) m with h | h
+      · simp [h]
+      · exfalso
+        unfold maxCallBelow at h
+        rcases maxCall_attained (rs.filter (·.k < k)) with h0 | ⟨r2, hr2, he2⟩
+        · omega
+        · have hr2' := List.mem_filter.mp hr2
+          have hk2 : r2.k < k := by simpa using hr2'.2
+          have hne := hwf.rr_distinct r1 hr1'.1 r2 hr2'.1
+          have hrr := hlin.read_read r1 hr1'.1 r2 hr2'.1 (by omega)
+          have hl1 := hlin.legal r1 hr1'.1
+          have hl2 := hlin.legal r2 hr2'.1
+          have h1 : (wk r1.k).lt (rk r1) := (hl1.2 r1.k (by omega) hl1.1).mpr (Nat.le_refl _)
+          have h2 : (wk r1.k).lt (rk r2) := Rank.lt_trans _ _ _ h1 hrr
+          have := (hl2.2 r1.k (by omega) hl1.1).mp h2
+          omega
+
+
+/-- non-vacuity: a stale read (state 1 returned by a read invoked after write 2 returned) is rejected, the
+same read overlapping write 2 is accepted -/
+example : accepts [⟨1, 1, 2⟩, ⟨2, 3, 6⟩] 2 [⟨0, 7, 8, 1⟩] = false ∧
+    accepts [⟨1, 1, 2⟩, ⟨2, 3, 6⟩] 2 [⟨0, 4, 5, 1⟩] = true ∧ writesSequential [⟨1, 1, 2⟩, ⟨2, 3, 6⟩] 2 = true := by decide
+end
 
 end KC.C15
 
